@@ -12,8 +12,9 @@
      - the lock-discipline monitor [mon] (a partial function on monitor states: [None] = violation);
      - the executable checker [check_skeleton];
    Definitions only.  SOUNDNESS ([check_skeleton sk = true] implies that on every path-trace of every API
-   function the monitor accepts every event) is proved in SlabConc/SkeletonSound.v; the obligation
-   `skeleton_disciplined` about the generated value is in Props/Properties_C05.v. *)
+   function the monitor accepts every event) is proved in SlabConc/SkeletonSound.v (big-step [api_trace]) and
+   SlabConc/SmallStepSound.v (every partial small-step execution); the obligation `skeleton_disciplined` about
+   the generated value is in Props/Properties_C05.v. *)
 From Coq Require Import List String Bool Arith Lia.
 Import ListNotations.
 Open Scope string_scope.
